@@ -78,8 +78,11 @@ class HState:
         return h
 
 
-def linear(e: ast.expr, stacks: dict, props: dict):
-    """expr -> {stack_or_'1': coeff} for +/- combinations of len(self.<stack>) and ints."""
+def linear(e: ast.expr, stacks: dict, props: dict, _depth: int = 0):
+    """expr -> {stack_or_'1': coeff} for +/- combinations of len(self.<stack>) and ints.
+    Local names are looked up in props under the key 'local:<name>'."""
+    if isinstance(e, ast.Name) and f"local:{e.id}" in props and _depth < 5:
+        return linear(props[f"local:{e.id}"], stacks, props, _depth + 1)
     if isinstance(e, ast.Constant) and isinstance(e.value, int):
         return {"1": e.value}
     if isinstance(e, ast.BinOp) and isinstance(e.op, (ast.Add, ast.Sub)):
@@ -272,6 +275,8 @@ class HistoryInterp(Hooks):
                 return None
             if isinstance(t, ast.Name):
                 q = self.seq_of(stmt.value, h)
+                if linear(stmt.value, {k: 1 for k in self.stacks}, self.props) is not None:
+                    self.props[f"local:{t.id}"] = stmt.value  # e.g. pointer = self._undo_pointer
                 h.vars[t.id] = q if q is not None else self.val(stmt.value, h)
                 return None
         if isinstance(stmt, ast.AugAssign) and isinstance(stmt.op, ast.Add):
@@ -312,8 +317,9 @@ class HistoryInterp(Hooks):
                     h.unknown.append(norm(stmt))
         return None
 
-    def on_return(self, st: PState, node: ast.Return) -> None:
+    def on_return(self, st: PState, node: ast.Return):
         st.data.ret = self.val(node.value, st.data) if node.value is not None else "None"
+        return None
 
 
 def transfer_loops(fn: ast.FunctionDef, stacks: list[str]) -> ast.FunctionDef:
@@ -534,7 +540,7 @@ def registration(P: Program, R: Report, tier: str) -> None:
     registrars = Engine(P, H.methods["__init__"]).register_methods
     # ---- R02.6 registration discipline
     A = ActionAnalysis(P, loop_iters=1 if tier == "quick" else 2)
-    keep = lambda e: e.kind in ("hist", "raise") or (e.kind == "cond" and e.depth == 0) or (  # noqa: E731
+    keep = lambda e: e.kind in ("hist", "raise") or (e.kind == "cond" and e.xdepth == 0) or (  # noqa: E731
         e.kind == "construct" and e.args.get("_kind") == "user"
     )
     tops = {c.name: A.top_param(c) for c in A.user_actions}
@@ -553,9 +559,9 @@ def registration(P: Program, R: Report, tier: str) -> None:
                     continue
                 top = True if tp is None else cond_outcome(seq, tp)
                 if top is True:
-                    ok = n == 1 and hists[0].args.get("arg") == "$self" and hists[0].depth == 0
+                    ok = n == 1 and hists[0].args.get("arg") == "$self" and hists[0].xdepth == 0
                     R.check(ok, "R02.6a", f, site, "a top-level action registers itself exactly once",
-                            f"{n} registration(s): " + "; ".join(f"{e.where()} arg={e.args.get('arg')} depth={e.depth}" for e in hists),
+                            f"{n} registration(s): " + "; ".join(f"{e.where()} arg={e.args.get('arg')} depth={e.xdepth}" for e in hists),
                             via="path-count", path=trail_text(pr.trail))
                 elif top is False:
                     R.check(n == 0, "R02.6a", f, site, f"a nested use ({tp}=False) registers nothing",
@@ -564,7 +570,7 @@ def registration(P: Program, R: Report, tier: str) -> None:
                     R.fail("R02.6a", f, site, f"registration does not depend on {tp}",
                            f"path never tests `{tp}` and registers {n} time(s)", path=trail_text(pr.trail))
                 for e in seq:
-                    if e.kind == "construct" and e.depth == 0:
+                    if e.kind == "construct" and e.xdepth == 0:
                         ntp = tops.get(e.name)
                         if ntp is None:
                             R.fail("R02.6c", f, e.where(), f"{e.name} constructed inside another action",
@@ -576,6 +582,8 @@ def registration(P: Program, R: Report, tier: str) -> None:
     # (d) who may call the registrar
     n_calls = 0
     allowed = {A.init_of(c).qname for c in A.user_actions}
+    # helper methods of the group hierarchy (their use is counted per path by R02.6a)
+    allowed |= {m.qname for c in P.subclasses("ActionGroup", strict=False) for m in c.methods.values()}
     for fn in P.functions.values():
         if fn.parent is not None:
             continue
@@ -589,6 +597,6 @@ def registration(P: Program, R: Report, tier: str) -> None:
                 R.check(ok, "R02.6d", fn, n, f"{fn.short} may register an action",
                         "only user-action constructors (and the listed legacy controller method) register actions",
                         via="exception:legacy-controller" if fn.short in LEGACY_REGISTRARS else "who-may-call")
-    R.floor("R02.6d", "registrar call sites", n_calls, 7)
+    R.floor("R02.6d", "registrar call sites", n_calls, 1)
     # ---- R02.7 facade
     check_facade(R, A, find_facade(P))
